@@ -368,6 +368,14 @@ pub fn exec_ops(dir: &Path, link: &Path, t0: i64, ops: &[&str], drop_at_end: boo
             continue;
         }
         let p: Vec<&str> = tok.split(':').collect();
+        // the background threads finish what they were asked to do before the next operation - except before a stop or
+        // shutdown: those must themselves make sure that everything requested earlier is done
+        if p[0] != "S" && p[0] != "H" {
+            settle_async(aexits);
+            aexits = AS_EXIT.load(Ordering::SeqCst);
+            settle_cleanup(exits);
+            exits = CL_EXIT.load(Ordering::SeqCst);
+        }
         let o = match p[0] {
             "B" => {
                 let c = parse_cfg(p[1]);
@@ -516,10 +524,13 @@ pub fn exec_ops(dir: &Path, link: &Path, t0: i64, ops: &[&str], drop_at_end: boo
             }
             other => panic!("unknown op {other}"),
         };
-        settle_async(aexits);
-        aexits = AS_EXIT.load(Ordering::SeqCst);
-        settle_cleanup(exits);
-        exits = CL_EXIT.load(Ordering::SeqCst);
+        if p[0] == "S" || p[0] == "H" {
+            // after them nothing may be outstanding
+            settle_async(aexits);
+            aexits = AS_EXIT.load(Ordering::SeqCst);
+            settle_cleanup(exits);
+            exits = CL_EXIT.load(Ordering::SeqCst);
+        }
         errs.extend(take_errors());
         scan_dir(&dir);
         emit(o);
